@@ -250,7 +250,8 @@ func verifRollMethod() string {
 // position and kind) aborts the sync before any child is touched.
 func VerifC09_Ordering() {
 	namespaced := rt.Bool("namespaced")
-	r := verifNewRollWorld(namespaced, verifRollMethod(), []string{"a", "b"}, "1")
+	method := verifRollMethod()
+	r := verifNewRollWorld(namespaced, method, []string{"a", "b"}, "1")
 	err := r.sync()
 	rt.Assert(err == nil, "first-sync/error")
 	rt.Assert(len(r.w.Srv.Revs()) == 1, "first-sync/not-exactly-one-revision")
@@ -333,20 +334,53 @@ func VerifC09_Ordering() {
 	// lister cache and receives a new claim
 	r.markHealthy()
 	r.w.Srv.ResetLog()
+	// this step empties the old revision: its revision writes are the DELETE of
+	// the old revision and the update of the latest one; either may be refused
+	// (in place only: by recreation this step re-creates the child deleted before)
+	inPlace := method == "RollingInPlace"
+	faulty2 := false
+	if inPlace {
+		faulty2 = rt.Bool("fault-on-a-revision-write-of-the-second-step")
+	}
+	if faulty2 {
+		r.w.Srv.ArmFault(rt.Choice("second-step-fault-at", 2), 1+rt.Choice("second-step-fault-kind", env.NumFaultKinds-2), "controllerrevisions", false)
+	}
 	r.pc.SnapshotFromStore()
 	fp2 := verifFingerprint(verifListerItems(r.pc), verifRevItems(r.pc))
 	err = r.pc.syncParentObject(r.pc.W.Srv.All(r.parentRes.Name)[0])
-	rt.Assert(err == nil, "second-step/error")
 	sawChild = false
 	nChild = 0
+	revFailed = false
+	sawDelete := false
 	for _, q := range r.w.Srv.Log {
 		if verifIsRevWrite(q) {
 			rt.Assert(!sawChild, "second-step/revision-write-after-child-write")
+			if q.Verb == "delete" {
+				sawDelete = true
+			}
+			if q.Err != nil {
+				revFailed = true
+				if q.Verb == "delete" {
+					rt.Cover("second-step/revision-delete-refused")
+				}
+			}
 		}
 		if r.isChildWrite(q) {
 			nChild++
 			sawChild = true
+			rt.Assert(!revFailed, "second-step/child-written-although-a-revision-write-failed")
 		}
+	}
+	if faulty2 {
+		rt.Assert(revFailed, "second-step/fault-position-not-reached")
+		rt.Assert(err != nil, "second-step/revision-write-failed/sync-reports-success")
+		rt.Assert(nChild == 0, "second-step/revision-write-failed/child-touched")
+		fp2.AssertUnchanged("C17/cached-revision-mutated-by-second-rolling-step")
+		return
+	}
+	rt.Assert(err == nil, "second-step/error")
+	if inPlace {
+		rt.Assert(sawDelete, "second-step/emptied-old-revision-not-deleted")
 	}
 	rt.Assert(nChild == 1, "second-step/expected-exactly-one-child-moved")
 	for _, n := range r.names {
